@@ -95,6 +95,8 @@ class Gen:
             self.refkind["t0"] = "sp"
             mir["refs"][tp(owner)]["t0"] = {"v": ["sp", list(tgt), [], ""],
                                             "mode": rng.choice(["auto", "absolute"])}
+        cand = [(tp(p), rn) for p in sp for rn, r in mir["refs"][tp(p)].items() if r["v"][0] == "int"]
+        self.hot_ref = rng.choice(cand) if cand and rng.random() < 0.7 else None
         # cells names with rank and signature
         n = self.ncells + rng.choice([-1, 0, 1])
         names = ["c%d" % i for i in range(max(2, n))]
@@ -195,6 +197,13 @@ class Gen:
                 ops.append(["call", [name], args, rng.choice(["pos", "kw"])])
             elif k < 0.85:
                 refs = self.visible_int_refs(sp)
+                # locality: one space-level reference is read from many places, by attribute
+                # path where possible (the same reference at several depths of one evaluation)
+                hot = getattr(self, "hot_ref", None)
+                if hot and rng.random() < 0.45:
+                    hp = [r for r in refs if len(r) > 1 and r[-1] == hot[1]
+                          and r[:-1] in self.space_paths(sp, list(hot[0]))]
+                    refs = hp or refs
                 if refs:
                     ops.append(["read", rng.choice(refs)])
                 else:
